@@ -443,6 +443,8 @@ def run(chk, prog):
         bad = []
         for kind, b, info, l in cons:
             if kind == "call":
+                if info.term.get("inlined") and info.term.get("inlined") != "skipped":
+                    continue          # a helper analysed inside this function (engine/inline.py): its body is part of what is examined here
                 lk = info.local_key()
                 if lk and not PURE_LOCAL.search(info.name or ""):
                     bad.append(info)
@@ -453,6 +455,9 @@ def run(chk, prog):
             chk.finding("ID", f.key, short(c.name), "", c.where(),
                         "%s passes the destination through %s before encoding it: the next hop can be asked for an address that differs from the "
                         "one the client requested and the rules were evaluated on" % (f.path, short(c.name)))
+
+    # ------------------------------------------------------------------ WIRE: the UDP header codecs agree on the header layout
+    shared.rule_wire(chk, prog, rule="WIRE", which=("UDP5", "ADDR"))
 
     # ------------------------------------------------------------------ MAP: the transparent-proxy destination is normalised exactly
     shared.rule_addr_map(chk, prog, "MAP", "original destination taken from a redirected packet (and every peer address)")
